@@ -181,6 +181,10 @@ class Gen:
         k = rng.choice(['==', '!=', '<', '<=', '>', '>='])
         # no ties: integer column against a half-integer constant, or equality between integers
         if k in ('==', '!='):
+            if rng.random() < 0.15:
+                # equality is exact: two numbers that differ in the ninth decimal are different
+                a_ = rng.choice([1.0, 0.3, -2.0])
+                return [k, ['num', a_], ['num', a_ + rng.choice([1e-9, -1e-9, 0.0])]]
             return [k, ['var', rng.choice(INT_COLS)], ['num', float(rng.randrange(-2, 4))]]
         return [k, ['var', rng.choice(INT_COLS + POS_COLS)], ['num', rng.randrange(-2, 4) + 0.5]]
 
